@@ -33,10 +33,12 @@ import (
 	"encoding/json"
 	"fmt"
 	"net/http"
+	"os"
 	"runtime"
 	"sort"
 	"strings"
 	"sync"
+	"sync/atomic"
 	"time"
 
 	"github.com/nuetzliches/hookaido/internal/config"
@@ -69,6 +71,10 @@ type mfCfg struct {
 	B      int    `json:"users_variant"`
 	HostB  bool   `json:"users_host"`
 	Order  int    `json:"order"`
+}
+
+func (c mfCfg) valid() bool {
+	return c.K >= 0 && c.K <= len(mfPool) && c.Via >= 0 && c.Via < nMfVia && c.A >= 0 && c.A < len(mfVariantsA) && c.B >= 0 && c.B < len(mfVariantsB) && c.Order >= 0 && c.Order < nMfOrder
 }
 
 func (c mfCfg) String() string {
@@ -316,11 +322,35 @@ func runMethodFamily(r *runner.Run, ip interp, deadline time.Time) bool {
 		finds                                    map[string]mfFinding
 		infra                                    []string
 		cut                                      bool
+		ov                                       overlapStats
 	}
 	results := make([]*result, workers)
 	var wg sync.WaitGroup
+	// watchdog (not an oracle): the overlap part serves a request from inside another request's ResponseWriter call;
+	// a handler that held a lock across such a call would block there for ever
+	var progress atomic.Int64
+	finished := make(chan struct{})
+	go func() {
+		last, since := int64(-1), time.Now()
+		for {
+			select {
+			case <-finished:
+				return
+			case <-time.After(5 * time.Second):
+			}
+			if p := progress.Load(); p != last {
+				last, since = p, time.Now()
+			} else if time.Since(since) > 5*time.Minute {
+				fmt.Printf("INFRA-ERROR property=C10 method list family: no configuration finished for 5 minutes (a nested request blocked inside a ResponseWriter call?)\n")
+				os.Exit(2)
+			}
+		}
+	}()
+	defer close(finished)
 	for w := 0; w < workers; w++ {
 		res := &result{classes: map[string]struct{}{}, finds: map[string]mfFinding{}}
+		res.ov.finds = map[string]overlapFinding{}
+		res.ov.byStatus = map[int]int64{}
 		results[w] = res
 		wg.Add(1)
 		go func(w int) {
@@ -394,7 +424,14 @@ func runMethodFamily(r *runner.Run, ip interp, deadline time.Time) bool {
 					}
 					res.finds[kind] = f
 				}
+				// every ordered pair once more, the second request served inside the first one's writer calls (overlap_test.go)
+				if len(res.infra) == 0 {
+					if err := overlapConfig(b, c, ci, dsl, reqs, raws, exps, &res.ov, res.classes); err != nil {
+						res.infra = append(res.infra, "method family: "+err.Error())
+					}
+				}
 				b.a.Shutdown()
+				progress.Add(1)
 				if len(res.infra) > 0 {
 					return
 				}
@@ -405,6 +442,7 @@ func runMethodFamily(r *runner.Run, ip interp, deadline time.Time) bool {
 
 	good, cut := true, false
 	finds := map[string]mfFinding{}
+	ovFinds := map[string]overlapFinding{}
 	for _, res := range results {
 		for _, m := range res.infra {
 			r.Infra("%s", m)
@@ -428,7 +466,23 @@ func runMethodFamily(r *runner.Run, ip interp, deadline time.Time) bool {
 				finds[k] = f
 			}
 		}
+		r.Add("evaluations", res.ov.pairs+res.ov.nested)
+		r.Add("overlap_pairs", res.ov.pairs)
+		r.Add("ref_match", res.ov.byStatus[http.StatusAccepted])
+		r.Add("ref_nomatch", res.ov.byStatus[http.StatusNotFound]+res.ov.byStatus[http.StatusMethodNotAllowed])
+		r.Add("ref_nomatch_404", res.ov.byStatus[http.StatusNotFound])
+		r.Add("ref_nomatch_405", res.ov.byStatus[http.StatusMethodNotAllowed])
+		r.Add("overlap_nested_requests", res.ov.nested)
+		for p := range pointNames {
+			r.Add("overlap_nested_at_"+pointNames[p], res.ov.byPoint[p])
+		}
+		for k, f := range res.ov.finds {
+			if old, ok := ovFinds[k]; !ok || f.Rank < old.Rank {
+				ovFinds[k] = f
+			}
+		}
 	}
+	reportOverlap(r, ovFinds, ip)
 	if cut {
 		r.NotExhaustive("wall budget reached inside the method list family")
 	}
@@ -482,7 +536,7 @@ func replayMethods(r *runner.Run, data []byte, ip interp) (ok bool) {
 		return false
 	}
 	c := doc.Replay.Cfg
-	if c.K < 0 || c.K > len(mfPool) || c.Via < 0 || c.Via >= nMfVia || c.A < 0 || c.A >= len(mfVariantsA) || c.B < 0 || c.B >= len(mfVariantsB) || c.Order < 0 || c.Order >= nMfOrder {
+	if !c.valid() {
 		r.Infra("replay: configuration out of range: %+v", c)
 		return true
 	}
